@@ -278,8 +278,8 @@ def run(ctx):
 
     P = W.Pools()
     G = W.Gen(D, P, rng.fork("gen"))
-    per_type = 4 if tier == "quick" else 40
-    cap = 40 if tier == "quick" else 400
+    per_type = 3 if tier == "quick" else 40
+    cap = 28 if tier == "quick" else 400
     vals = []
     for n in D.json_types:
         d = D.top[n]
